@@ -35,6 +35,8 @@ func init() {
 			{ID: "C19-R9", Title: "Interface() of a container is never a nil slice or map", Floor: 2, Run: containerInterfaceNotNil},
 			{ID: "C19-R10", Title: "a wrapper that sorts a Go error by type ends on every kind", Floor: 1, Run: errorBranchesDoNotFallThrough},
 			{ID: "C19-R11", Title: "a wrapper returns its Go namesake's result as it is", Floor: 20, Run: wrapperResultsNotReinterpreted},
+			{ID: "C19-R12", Title: "the json codec and json.marshal hand the same value to encoding/json", Floor: 1, Run: jsonCodecAndModuleEncodeTheSameThing},
+			{ID: "C19-R13", Title: "a byte of a string does not stand for a character", Floor: 1, Run: stringBytesAreNotCharacters},
 		},
 	})
 }
@@ -119,7 +121,6 @@ func registeredWrappers(p *core.Program) []wrapperInfo {
 
 // c19Exceptions: wrappers that deliberately do not call their namesake.
 var c19Exceptions = map[string]string{
-	"modules/math.abs":          "own int/float implementation (keeps ints integral; Go's math.Abs is float64 only)",
 	"modules/filepath.abs":      "must resolve against the mediated OS's working directory (C12) instead of filepath.Abs",
 	"modules/filepath.walk_dir": "must walk the mediated OS's filesystem (C12) instead of filepath.WalkDir",
 	"modules/regexp.match":      "string form of the namesake: regexp.MatchString",
